@@ -67,9 +67,10 @@ class _VAcc(Mapping):
 
 
 class Ref(object):
-    def __init__(self, form_list, requested, final_inputs, preset_values=None):
+    def __init__(self, form_list, requested, final_inputs, preset_values=None, requested_lines=()):
         self.form_map = {f.form_name: f for f in form_list}
         self.requested = list(requested)
+        self.requested_lines = list(requested_lines)
         self.inputs = dict(final_inputs)
         self.forms = {}          # participating form instances (name -> obj); what field.form(name) sees
         self.spec_forms = {}     # form instance name -> obj, loaded for input specs
@@ -159,6 +160,10 @@ class Ref(object):
         try:
             for r in self.requested:
                 self._load(r)
+            for line in self.requested_lines:      # specifically requested (optional) lines of the requested forms
+                if line not in self.fields:
+                    raise Abort('UnknownLine', line)
+                self._demand(line)
             waiting = {}   # line -> (kind, name) it last stopped at
             progress = True
             while progress:
